@@ -208,6 +208,14 @@ def load (f : Graph) (r : Nat) : Option (Graph × Nat) :=
   | none => none
   | some (t, st) => some (st.out, t)
 
+/-- Well-formedness of a heap as a decidable check: for every node the loader's child selection
+succeeds and is a permutation of the stored children (lists/tuples/sets have entries named
+`0 … len-1`, a general dict has exactly the children "keys" and "values"). -/
+def wfB (g : Graph) : Bool :=
+  g.all (fun nd => match ordLoad nd.label nd.kids with
+    | none => false
+    | some ks' => ks'.isPerm nd.kids)
+
 def roundtrip (g : Graph) (r : Nat) : Option (Graph × Nat) :=
   match save g r with
   | none => none
